@@ -670,6 +670,11 @@ def register(M):
             return tm.some(v.a[n]) if 0 <= n < len(v.a) else tm.NONE
         return make_opt(tm.lt(i, M.len_of(ev, v)), M.index_value(ev, v, i))
 
+    @reg("core::slice::<impl [T]>::split_first")
+    def slice_split_first(ev, fr, prog, fty, args, cx):
+        v = deref_arg(ev, args[0])
+        return make_opt(tm.lt(tm.ZERO, M.len_of(ev, v)), tm.tup(M.index_value(ev, v, tm.ZERO), mk("slice_from", v, tm.ONE)))
+
     @reg("core::slice::<impl [T]>::get")
     def slice_get(ev, fr, prog, fty, args, cx):
         return slice_get_impl(ev, deref_arg(ev, args[0]), deref_arg(ev, args[1]))
